@@ -463,6 +463,7 @@ spif_socket_send(spif_socket_t self, spif_str_t data)
 {
     size_t len;
     int num_written;
+    spif_charptr_t buf;
     struct timeval tv = { 0, 0 };
 
     ASSERT_RVAL(!SPIF_SOCKET_ISNULL(self), FALSE);
@@ -471,15 +472,23 @@ spif_socket_send(spif_socket_t self, spif_str_t data)
     len = spif_str_get_len(data);
     REQUIRE_RVAL(len > 0, FALSE);
 
-    num_written = write(self->fd, SPIF_STR_STR(data), len);
-    for (; (num_written < 0) && ((errno == EAGAIN) || (errno == EINTR)); ) {
-        tv.tv_usec += 10000;
-        if (tv.tv_usec == 1000000) {
-            tv.tv_usec = 0;
-            tv.tv_sec++;
+    buf = SPIF_CHARPTR(SPIF_STR_STR(data));
+    num_written = write(self->fd, buf, len);
+    for (; ((num_written < 0) && ((errno == EAGAIN) || (errno == EINTR)))
+             || ((num_written >= 0) && ((size_t) num_written < len)); ) {
+        if (num_written > 0) {
+            /* write() took only part of the data.  Keep going with the rest. */
+            buf += num_written;
+            len -= num_written;
+        } else {
+            tv.tv_usec += 10000;
+            if (tv.tv_usec == 1000000) {
+                tv.tv_usec = 0;
+                tv.tv_sec++;
+            }
+            select(0, NULL, NULL, NULL, &tv);
         }
-        select(0, NULL, NULL, NULL, &tv);
-        num_written = write(self->fd, SPIF_STR_STR(data), len);
+        num_written = write(self->fd, buf, len);
     }
     if (num_written < 0) {
         D_OBJ(("Unable to write to socket %d -- %s\n", self->fd, strerror(errno)));
@@ -491,7 +500,7 @@ spif_socket_send(spif_socket_t self, spif_str_t data)
                     spif_charptr_t s;
                     long left;
 
-                    for (left = len, s = SPIF_CHARPTR(SPIF_STR_STR(data)); left > 0; s += 1024, left -= 1024) {
+                    for (left = len, s = buf; left > 0; s += 1024, left -= 1024) {
                         tmp_buf = spif_str_new_from_buff(s, 1024);
                         b = spif_socket_send(self, tmp_buf);
                         if (b == FALSE) {
